@@ -544,7 +544,7 @@ def main():
                         stability['changed_outcome'].append(n)
                     if t2[n]['success']:
                         tab[n] = dict(t2[n], proved_under_seed=sd)
-    elif retry and len(retry) <= 8:
+    elif retry and len(retry) <= 3:
         # quick tier: only the failing functions, one Verus run each per seed
         stability = {'seeds': [], 'changed_outcome': [], 'mode': 'failing functions only'}
         for n in retry:
